@@ -42,6 +42,8 @@ def mkprog(name, tasks, files, ncontents=2, init=None, reqsets=None, failsets=No
     return {"name": name, "tasks": tasks, "files": files, "ncontents": ncontents,
             "init": init or {f: 0 for f in files},
             "reqsets": reqsets or subsets(names, True), "failsets": failsets or subsets(names),
+            # one task whose first command cannot be run at all (the runner returns an error instead of an exit status)
+            "errsets": [[next((t["name"] for t in tasks if t["lit"] or t["glob"]), names[0])]],
             "crash": False, "tear": [], "reps": 2, "maxstates": 40000}
 
 
@@ -196,6 +198,7 @@ def guided_histories(prog):
     def run(force=False, failing=(), crash=None, req=None):
         return {"act": "invoke", "req": req or allreq, "force": force, "failing": list(failing), "crash": crash or {"kind": "", "k": 0}}
     twists = [[run()], [run(force=True)]] + [[run(failing=[t])] for t in tasks] + [[run(force=True, failing=[t])] for t in tasks]
+    twists += [[run(failing=["!" + t])] for es in prog.get("errsets", []) for t in es] + [[run(force=True, failing=["!" + t])] for es in prog.get("errsets", []) for t in es]
     if prog["crash"]:
         twists += [[run(crash={"kind": "event", "k": k})] for k in range(1, 13)] + [[run(crash={"kind": "cmd", "k": j})] for j in range(1, 2 * len(tasks) + 1)]
         twists += [[run(), {"act": "tear", "k": k}] for k in (0, 1, 20, 60, 100)]
@@ -243,7 +246,7 @@ def random_walks(ctx, driver, prog, invs, nwalks, length):
             elif x < 0.52 and prog["crash"]:
                 acts.append({"act": "tear", "k": rnd.choice([0, 1, 2, 5, 20, 40, 60, 90, 100, 120, 150])})
             else:
-                a = {"act": "invoke", "req": rnd.choice(prog["reqsets"]), "force": rnd.random() < 0.25, "failing": rnd.choice(prog["failsets"]) if rnd.random() < 0.3 else [],
+                a = {"act": "invoke", "req": rnd.choice(prog["reqsets"]), "force": rnd.random() < 0.25, "failing": rnd.choice(prog["failsets"] + [["!" + t for t in es] for es in prog.get("errsets", [])]) if rnd.random() < 0.3 else [],
                      "crash": {"kind": "", "k": 0}}
                 if prog["crash"] and rnd.random() < 0.35:
                     a["crash"] = {"kind": rnd.choice(["event", "event", "cmd"]), "k": rnd.randint(1, 12)}
